@@ -139,22 +139,22 @@ func (interp *Interpreter) CompileAST(n ast.Node) (*Program, error) {
 
 // Execute executes compiled Go code.
 func (interp *Interpreter) Execute(p *Program) (res reflect.Value, err error) {
-	return interp.execute(p, interp.runid())
+	return interp.execute(p, interp.runid(), &runState{})
 }
 
 // execute executes p in the run id.
-func (interp *Interpreter) execute(p *Program, id uint64) (res reflect.Value, err error) {
-	defer interp.startRun(id)()
+func (interp *Interpreter) execute(p *Program, id uint64, run *runState) (res reflect.Value, err error) {
+	defer interp.startRun(id, run)()
 	return interp.executeProg(p)
 }
 
 // startRun marks the global frame as belonging to a new evaluation, in the run id.
 // It returns the function to call at the end of the evaluation.
-func (interp *Interpreter) startRun(id uint64) func() {
+func (interp *Interpreter) startRun(id uint64, run *runState) func() {
 	atomic.AddInt32(&interp.active, 1)
 	interp.frame.setrunid(id)
 	interp.frame.mutex.Lock()
-	interp.frame.run = &runState{}
+	interp.frame.run = run
 	interp.frame.mutex.Unlock()
 	return func() { atomic.AddInt32(&interp.active, -1) }
 }
@@ -222,17 +222,17 @@ func (interp *Interpreter) ExecuteWithContext(ctx context.Context, p *Program) (
 	interp.done = make(chan struct{})
 	interp.cancelChan = !interp.opt.fastChan
 	interp.mutex.Unlock()
-	id := interp.runid()
+	id, run := interp.runid(), &runState{}
 
 	done := make(chan struct{})
 	go func() {
 		defer close(done)
-		res, err = interp.execute(p, id)
+		res, err = interp.execute(p, id, run)
 	}()
 
 	select {
 	case <-ctx.Done():
-		interp.stop()
+		interp.stop(run)
 		return reflect.Value{}, ctx.Err()
 	case <-done:
 	}
